@@ -730,7 +730,7 @@ class Walk:
     """Weighted random walk over client operations and broker responses (conformant broker unless told otherwise)."""
 
     def __init__(self, rng, name, cfg=None, recv_max=None, max_pkt=None, clones=1, sei=None, weights=None,
-                 allow_hold=False, allow_drop=False, allow_poll=False, nonconformant=0.0, subid_modes=None):
+                 allow_hold=False, allow_drop=False, allow_poll=False, nonconformant=0.0, subid_modes=None, snap=True):
         self.rng = rng
         self.s = Sess(name, cfg)
         ps = []
@@ -749,6 +749,7 @@ class Walk:
         self.w = dict(pub0=2, pub1=4, pub2=4, sub=2, unsub=1, ping=1, ack=8, inbound=3, pubrel=1, stream=1)
         if weights:
             self.w.update(weights)
+        self.snap = snap
         self.allow_hold = allow_hold
         self.allow_drop = allow_drop
         self.allow_poll = allow_poll
@@ -820,6 +821,11 @@ class Walk:
                 s.rsps.discard(op)
                 s.streams.add(op)
                 s.add(f'STREAM {op}')
+        if self.snap and not self.held and rng.random() < 0.06:
+            # compare the whole bookkeeping state: cancel run(), snapshot through the hook, call run() again
+            s.add('DROPFUT')
+            s.add('SNAP')
+            s.add('RUN')
         if self.allow_poll and rng.random() < 0.2:
             tasks = ['ctx'] + [f'op{o}' for o in s.live_ops] + [f'st{o}' for o in s.streams]
             s.add('POLL ' + rng.choice(tasks))
@@ -1081,7 +1087,9 @@ def fam_C10(rng, tier):
                 s.publish(1)                      # refused again
                 out.append(s.script())
     if not q:
-        s = Sess('c10-R65535')
+        # 'big-' scripts are run on the implementation and judged by the oracle only: the list-based Lean model is
+        # quadratic in the number of simultaneously outstanding operations
+        s = Sess('big-c10-R65535')
         s.connect(connack_ps=[(33, 65535)])
         for _ in range(65535):
             s.publish(1)
